@@ -37,6 +37,12 @@ def lemma_obligations(lm):
     for v, t in lm.vars.items():
         st.store[v] = ex.sym_of_type(t, v, st)
     st.old = st
+    if lm.two_heaps:
+        so = st.clone()
+        so.heap = new_heap("old")
+        so.old = so
+        st.old = so
+        ex.heap_type_invariants(so)
     ex.entry = st.clone()
     for h in list(lm.hyps) + list(lm.ih):
         st.assume(ex.spec_bool(h, st))
